@@ -70,6 +70,15 @@ def beat_counts(votes: Dict[Tuple[Candidate, Candidate], int]
 def _smith_schwartz_set(votes: Dict[Tuple[Candidate, Candidate], int],
                         ties: bool = True,
                         ) -> List[Candidate]:
+    # a pair nobody ranked counts as zero against zero
+    candidates = list(dict.fromkeys(cand for pair in votes for cand in pair))
+    votes = {
+        **{
+            (cand1, cand2): 0
+            for cand1 in candidates for cand2 in candidates if cand1 != cand2
+        },
+        **votes
+    }
     wins = pairwise_wins(votes, include_ties=ties)
     copeland_scores = Copeland.scores(wins)
     copeland_ordering = list(sorted(
